@@ -249,6 +249,37 @@ func forLoopsRuleSSA(r *Run) {
 			}
 			l.okOrder = okOrder
 		case func() bool {
+			c, ok := v.(*ssa.Call)
+			return ok && c.Call.IsInvoke() && c.Call.Method.Name() == "Next" && h.Dominates(c.Block()) && blockReaches(c.Block(), h, false)
+		}():
+			// the element is fetched at the top of every iteration: for i := 0; ; i++ { v := it.Next(); if v == nil { break } ... }
+			l.kind = "iterator"
+			call := v.(*ssa.Call)
+			_, isCounter := isInductionFrom(k, 0)
+			stops := false
+			for _, fct := range dominatingFacts(at) {
+				if bo, ok := fct.cond.(*ssa.BinOp); ok && (bo.Op == token.NEQ || bo.Op == token.EQL) {
+					if (bo.X == ssa.Value(call) && isNilConst(bo.Y)) || (bo.Y == ssa.Value(call) && isNilConst(bo.X)) {
+						if fct.truth == (bo.Op == token.NEQ) {
+							stops = true
+						}
+					}
+				}
+			}
+			// exactly one Next per iteration: no other Next call on the same iterator inside the loop
+			nNext := 0
+			for _, b := range fn.Blocks {
+				if !(h.Dominates(b) && blockReaches(b, h, false)) {
+					continue
+				}
+				for _, ins := range b.Instrs {
+					if c2, ok := ins.(*ssa.Call); ok && c2.Call.IsInvoke() && c2.Call.Method.Name() == "Next" && c2.Call.Value == call.Call.Value {
+						nNext++
+					}
+				}
+			}
+			l.okOrder = isCounter && stops && nNext == 1
+		case func() bool {
 			phi, ok := v.(*ssa.Phi)
 			if !ok {
 				return false
@@ -330,9 +361,18 @@ func forLoopsRuleSSA(r *Run) {
 		if blockCall == nil {
 			continue
 		}
-		h := loopHeaderOf(blockCall.Block())
+		// which loop ran? the one whose bindings were executed on this path
+		var h *ssa.BasicBlock
+		for _, cand := range order {
+			cl := loops[cand]
+			for _, ev := range p.events {
+				if (cl.valSet != nil && ev == ssa.Instruction(cl.valSet)) || (cl.keySet != nil && ev == ssa.Instruction(cl.keySet)) {
+					h = cand
+				}
+			}
+		}
 		s := sums[h]
-		if s == nil {
+		if s == nil || h == nil {
 			continue
 		}
 		l := loops[h]
@@ -575,35 +615,51 @@ func loopReturnRuleSSA(r *Run, rule string) {
 			kindOf[h] = kind
 		}
 	}
-	// type tests of the block's result inside each loop
+	// type tests of the block's result inside each loop -- in the evaluator itself or in a helper that
+	// the loop body calls (the helper is then attributed to every loop that calls it)
 	hasReturn := map[*ssa.BasicBlock]bool{}
 	at := map[*ssa.BasicBlock]token.Pos{}
-	for _, b := range fn.Blocks {
-		for _, ins := range b.Instrs {
-			ta, ok := ins.(*ssa.TypeAssert)
-			if !ok {
-				continue
-			}
-			ex, ok := ta.X.(*ssa.Extract)
-			if !ok {
-				continue
-			}
-			c, ok := ex.Tuple.(*ssa.Call)
-			if !ok || c.Call.StaticCallee() != m.block {
-				continue
-			}
-			h := loopHeaderOf(b)
-			if h == nil {
-				continue
-			}
-			if !at[h].IsValid() {
-				at[h] = ta.Pos()
-			}
-			if exitTypeName(ta.AssertedType) == "returnObject" {
-				hasReturn[h] = true
+	var scan func(g *ssa.Function, loopsOf func(b *ssa.BasicBlock) []*ssa.BasicBlock, depth int)
+	scan = func(g *ssa.Function, loopsOf func(b *ssa.BasicBlock) []*ssa.BasicBlock, depth int) {
+		if depth > 2 {
+			return
+		}
+		for _, b := range g.Blocks {
+			for _, ins := range b.Instrs {
+				switch x := ins.(type) {
+				case *ssa.TypeAssert:
+					ex, ok := x.X.(*ssa.Extract)
+					if !ok {
+						continue
+					}
+					c, ok := ex.Tuple.(*ssa.Call)
+					if !ok || c.Call.StaticCallee() != m.block {
+						continue
+					}
+					for _, h := range loopsOf(b) {
+						if !at[h].IsValid() {
+							at[h] = x.Pos()
+						}
+						if exitTypeName(x.AssertedType) == "returnObject" {
+							hasReturn[h] = true
+						}
+					}
+				case *ssa.Call:
+					cal := x.Call.StaticCallee()
+					if cal != nil && cal != g && len(cal.Blocks) > 0 && m.inline(g, cal) {
+						hs := loopsOf(b)
+						scan(cal, func(*ssa.BasicBlock) []*ssa.BasicBlock { return hs }, depth+1)
+					}
+				}
 			}
 		}
 	}
+	scan(fn, func(b *ssa.BasicBlock) []*ssa.BasicBlock {
+		if h := loopHeaderOf(b); h != nil {
+			return []*ssa.BasicBlock{h}
+		}
+		return nil
+	}, 0)
 	var hs []*ssa.BasicBlock
 	for h := range kindOf {
 		hs = append(hs, h)
@@ -623,6 +679,163 @@ func loopReturnRuleSSA(r *Run, rule string) {
 		} else {
 			r.Bad(rule, f.Name(), kindOf[h]+": return object treated as output", w.Pos(pos),
 				"a return reached inside the loop body is appended to the loop's output like ordinary text and the loop goes on; 'fn(){ for ... { return x } return 9 }' yields 9")
+		}
+	}
+}
+
+// forIterableRuleSSA (C08.R3): a nil iterable yields (nil, nil); a value that
+// is neither map, slice, array nor Iterator ends in a non-nil error. Decided
+// by evaluating the branch decisions of the evaluator's paths for the two
+// value classes "nil" and "some other kind" (an int).
+func forIterableRuleSSA(r *Run) {
+	w := r.W
+	w.SSA()
+	f := w.evalMethod("ForExpression")
+	m := w.coreModel()
+	if f == nil || m.expr == nil {
+		r.Lost("R3", "for evaluator")
+		return
+	}
+	fn := w.SSAFunc(f)
+	name := f.Name()
+	paths, ok := walkPathsUnrolled(fn, nil, m.inline, 200000)
+	if !ok {
+		r.Lost("R3", "paths of the for evaluator")
+		return
+	}
+	type class struct {
+		name  string
+		kind  int
+		isNil bool
+	}
+	for _, c := range []class{{"nil", kInvalid, true}, {"a value that cannot be iterated (an int)", kInt, false}} {
+		n, bad := 0, ""
+		var at token.Pos = fn.Pos()
+		for _, p := range paths {
+			if p.end != "return" || len(p.results) != 2 {
+				continue
+			}
+			// the iterable's value on this path
+			var iter ssa.Value
+			for _, ev := range p.events {
+				if call, ok := ev.(*ssa.Call); ok && call.Call.StaticCallee() == m.expr {
+					if x, isF := isFieldLoadOf(p.resolve(call.Call.Args[1]), astPath, "ForExpression", "Iterable"); isF && p.resolve(x) == ssa.Value(fn.Params[1]) {
+						for _, ref := range *call.Referrers() {
+							if ex, ok := ref.(*ssa.Extract); ok && ex.Index == 0 {
+								iter = ex
+							}
+						}
+					}
+				}
+			}
+			if iter == nil {
+				continue
+			}
+			kindOf := func(v ssa.Value) int {
+				// reflect.ValueOf(iter), possibly dereferenced
+				v = p.resolve(v)
+				for i := 0; i < 3; i++ {
+					if args, ok := reflectFunc(v, "ValueOf"); ok && len(args) == 1 && p.resolve(stripIface(p.resolve(args[0]))) == iter {
+						return c.kind
+					}
+					if args, ok := reflectFunc(v, "Indirect"); ok && len(args) == 1 {
+						v = p.resolve(args[0])
+						continue
+					}
+					if recv, _, ok := reflectValueCall(v, "Elem"); ok {
+						v = p.resolve(recv)
+						continue
+					}
+					break
+				}
+				return -1
+			}
+			consistent := true
+			for _, d := range p.decisions {
+				switch x := d.cond.(type) {
+				case *ssa.BinOp:
+					if x.Op != token.EQL && x.Op != token.NEQ {
+						continue
+					}
+					a, b := p.resolve(x.X), p.resolve(x.Y)
+					if isNilConst(a) {
+						a, b = b, a
+					}
+					if isNilConst(b) {
+						if p.resolve(stripIface(a)) == iter || a == iter {
+							if (c.isNil == (x.Op == token.EQL)) != d.truth {
+								consistent = false
+							}
+						}
+						// errors are assumed absent
+						if ex, ok := a.(*ssa.Extract); ok && ex.Index == 1 {
+							if _, isCall := ex.Tuple.(*ssa.Call); isCall && isErrorType(ex.Type()) {
+								if d.truth != (x.Op == token.EQL) {
+									consistent = false
+								}
+							}
+						}
+						continue
+					}
+					if recv, _, isKind := reflectValueCall(a, "Kind"); isKind {
+						if k, isC := constKind(b); isC {
+							if kk := kindOf(recv); kk >= 0 && ((kk == k) == (x.Op == token.EQL)) != d.truth {
+								consistent = false
+							}
+						}
+					}
+				case *ssa.Extract:
+					if ta, ok := x.Tuple.(*ssa.TypeAssert); ok && x.Index == 1 {
+						src := p.resolve(ta.X)
+						if src == iter {
+							// no class here implements anything
+							if d.truth {
+								consistent = false
+							}
+						} else if !d.truth {
+							// the evaluator's own scope assertion is assumed to succeed
+							if _, isPtr := ta.AssertedType.(*types.Pointer); isPtr && namedIs(ta.AssertedType, modPath, "Context") {
+								consistent = false
+							}
+						}
+					}
+				}
+			}
+			if !consistent {
+				continue
+			}
+			n++
+			at = p.ret.Pos()
+			ranBody := false
+			for _, ev := range p.events {
+				if call, ok := ev.(*ssa.Call); ok && call.Call.StaticCallee() == m.block {
+					ranBody = true
+				}
+			}
+			if c.isNil {
+				if ranBody || !p.knownNil(p.results[1]) {
+					bad = "a nil iterable must yield (nil, nil)"
+				} else if v := p.resolve(p.results[0]); !isNilConst(v) {
+					// an empty result list is as good as nil for the sink, but the documented contract is nil
+					if _, isSlice := stripIface(v).(*ssa.Slice); !isSlice {
+						bad = "a nil iterable must yield (nil, nil)"
+					}
+				}
+			} else if ranBody || p.knownNil(p.results[1]) {
+				bad = "a value that is neither map, slice, array nor Iterator must be an error"
+			}
+		}
+		switch {
+		case n == 0:
+			r.Bad("R3", name, "no path for "+c.name, w.Pos(at), "the evaluator's handling of this kind of iterable cannot be read")
+		case bad != "" && c.isNil:
+			r.Bad("R3", name, "nil iterable", w.Pos(at), bad)
+		case bad != "":
+			r.Bad("R3", name, "non-iterable value", w.Pos(at), bad)
+		case c.isNil:
+			r.Ok("R3", name, "nil iterable renders nothing", w.Pos(at), fmt.Sprintf("%d consistent path(s): (nil, nil) without running the body", n))
+		default:
+			r.Ok("R3", name, "non-iterable is an error", w.Pos(at), fmt.Sprintf("%d consistent path(s): all end in a non-nil error", n))
 		}
 	}
 }
